@@ -57,7 +57,7 @@ hypotheses across attestations / sync aggregate / withdrawals (balances grow by 
 total active balance and proposer stay the specification's while the state changes under the context; proved for exit
 initiation, i.e. exits and slashings). That is what keeps `M_block_refines_S` a `_partial`: see
 `M_block_refines_S_partial`. For phase0 blocks WITHOUT operations the premise is discharged completely:
-`processBlock_noOps_eq`.
+`processBlock_noOps_eq`; and for phase0 blocks whose only operations are voluntary exits: `processBlock_exits_eq`.
 Each `M` piece is additionally tied to the Go function it models by mode `c01pieces`
 (ZigZagJoin, IsSlashableAttestationData, GetExpectedWithdrawals, InitiateValidatorExit,
 ValidateIndexedAttestationIndicesSet are driven directly with generated inputs).
@@ -66,7 +66,7 @@ namespace Zrnt.Proofs.C01
 open Zrnt Zrnt.Beacon Zrnt.Beacon.Spec Zrnt.Beacon.BlockImpl Zrnt.Proofs.BeaconBlock
 open Zrnt.Beacon.BlockM (Ctx processHeader processRandaoReveal processEth1Vote processBLSToExecutionChange processExecutionPayload processVoluntaryExit processDeposit
   processAttestationPhase0 processAttestationAltair slashValidator processProposerSlashing processAttesterSlashing processBlock postSlotTransition)
-open Zrnt.Proofs.BlockM (RegU64 ExitSmall PubkeyOK SameDuties SlashSmall SlashInv OpSteps Sim Refines Safe NoOps SameCommittees)
+open Zrnt.Proofs.BlockM (RegU64 ExitSmall PubkeyOK SameDuties SlashSmall SlashInv OpSteps Sim Refines Safe NoOps SameCommittees OnlyExits ExitInv)
 
 /-- (a) `common.ValidatorSet.ZigZagJoin`, called on two strictly increasing index lists (what
 `ValidateIndexedAttestation` has established), calls `onIn` with exactly the spec's
@@ -582,5 +582,20 @@ theorem sameCommittees_initiate (cfg : Config) (s s' : State) (i : Nat)
     (hvals : s'.validators = initiate_validator_exit_pure cfg (get_current_epoch cfg s) s.validators i) :
     SameCommittees cfg s s' :=
   BlockM.sameCommittees_initiate cfg s s' i hcur hslot hmix hvals
+
+/-- … and for phase0 blocks whose only operations are voluntary exits (`OnlyExits`), with the invariant `ExitInv`: the
+context's proposer and active count are the specification's, C02's exit-queue budget `qmax + farCount ≤ C`, registry
+epochs inside `uint64`. Every exit re-establishes it: the proposer and the active count by the frame lemmas (the exit
+epoch lies after the current epoch), the budget by C02's accounting (`farCount` drops by one, `qmax` grows by at most
+one), so ANY number of exits in the block is covered. -/
+theorem processBlock_exits_eq (cfg : Config) (ctx : Ctx) (st : State) (block : SignedBlock) (p C : Nat) (hno : OnlyExits block)
+    (hi : ExitInv cfg p C ctx st)
+    (hpos : 0 < cfg.EPOCHS_PER_HISTORICAL_VECTOR)
+    (hlook : (cfg.MIN_SEED_LOOKAHEAD + 1) % cfg.EPOCHS_PER_HISTORICAL_VECTOR ≠ 0)
+    (hsmall : cfg.EPOCHS_PER_ETH1_VOTING_PERIOD * cfg.SLOTS_PER_EPOCH * 2 + 2 < 2 ^ 64)
+    (hq : cfg.CHURN_LIMIT_QUOTIENT ≠ 0) (hC : C + 1 + cfg.MIN_VALIDATOR_WITHDRAWABILITY_DELAY < 2 ^ 64)
+    (htyped : Block.check_types cfg block = .ok ()) :
+    Sim (Block.process_block cfg st block) (processBlock cfg ctx st block) :=
+  BlockM.processBlock_exits cfg ctx st block p C hno hi hpos hlook hsmall hq hC htyped
 
 end Zrnt.Proofs.C01
